@@ -6,8 +6,20 @@
 From Coq Require Import List Bool Arith PeanoNat.
 Import ListNotations.
 
+(* a condition about ONE pointer variable, as AddNilCheck sees it: its truth as a function of "the variable is nil", and the
+   conclusions AddNilCheck attaches to its two outcomes ("the variable is non-nil" on the true / on the false outcome) *)
+Record cond1 := { c_truth : bool -> bool; c_t : bool; c_f : bool }.
+
+(* the conclusions are right: whenever one is attached to an outcome, the variable is non-nil on that outcome *)
+Definition cond1_ok (k : cond1) : Prop :=
+  (c_t k = true -> forall n, c_truth k n = true -> n = false) /\
+  (c_f k = true -> forall n, c_truth k n = false -> n = false).
+
+(* `v == nil` (eq = true) / `v != nil` (eq = false) *)
+Definition atomic (eq : bool) : cond1 := {| c_truth := fun n => Bool.eqb n eq; c_t := negb eq; c_f := eq |}.
+
 Inductive sexp :=
-  | SChk (v : nat) (eq : bool)        (* `v == nil` (eq = true) / `v != nil` (eq = false) *)
+  | SCond (v : nat) (k : cond1)       (* a condition about v *)
   | SOpq (i : nat)                    (* an opaque boolean *)
   | SDer (v : nat) (l : nat)          (* `v.f == 0`: dereferences v; l identifies the leaf (its source line) *)
   | SAnd (x y : sexp)
@@ -22,7 +34,7 @@ Section Eval.
 
   Fixpoint eval (e : sexp) : outcome :=
     match e with
-    | SChk v eq => Val (Bool.eqb (nilv v) eq)
+    | SCond v k => Val (c_truth k (nilv v))
     | SOpq i => Val (orc i)
     | SDer v l => if nilv v then Panic l else Val (orc (1000 + l))
     | SAnd x y => match eval x with Val true => eval y | o => o end
@@ -39,13 +51,13 @@ Definition discharge (v : nat) (acc : list consumer) : list consumer :=
 (* the conclusion AddNilCheck attaches to the true / false outcome of an operand: only an atomic nil check has one
    (a compound operand `a && b` is no comparison: no-op) *)
 Definition apply_true (e : sexp) (acc : list consumer) : list consumer :=
-  match e with SChk v false => discharge v acc | _ => acc end.
+  match e with SCond v k => if c_t k then discharge v acc else acc | _ => acc end.
 Definition apply_false (e : sexp) (acc : list consumer) : list consumer :=
-  match e with SChk v true => discharge v acc | _ => acc end.
+  match e with SCond v k => if c_f k then discharge v acc else acc | _ => acc end.
 
 Fixpoint proc (e : sexp) (acc : list consumer) : list consumer :=
   match e with
-  | SChk _ _ | SOpq _ => acc
+  | SCond _ _ | SOpq _ => acc
   | SDer v l => (v, l) :: acc
   | SAnd x y => proc x (apply_true x (apply_true y (proc y acc)))
   | SOr x y => proc x (apply_false x (apply_false y (proc y acc)))
@@ -64,6 +76,16 @@ Fixpoint left_pure (e : sexp) : bool :=
   | SAnd x y => pure_and x && left_pure y
   | SOr x y => pure_or x && left_pure y
   | _ => true
+  end.
+
+Notation SChk v eq := (SCond v (atomic eq)).
+
+(* every condition of the expression draws right conclusions *)
+Fixpoint conds_ok (e : sexp) : Prop :=
+  match e with
+  | SCond _ k => cond1_ok k
+  | SAnd x y | SOr x y => conds_ok x /\ conds_ok y
+  | _ => True
   end.
 
 Fixpoint leaves (e : sexp) : list nat :=
